@@ -214,16 +214,23 @@ def run(ctx):
             fi = _setter_info(nm)
             where = ctx.under_contract(fi)
             world = T.tableau_world()
+            from pytableaux.lang import Argument as _Arg
+            from checks.structs import Tok as _Tok
+            world.contract(_Arg, lambda it, v: _Tok('argument'), name='Argument(value) (constructor: returns an argument or raises)')
             holder = []
             def runp(path):
                 it = Interp(path, world)
                 t = TableauObj('t')
                 path.assume(t.flag.has('STARTED'))
                 holder.append(t)
-                return it.call_source(fi, func, Tableau, [t, 'value'], {}, recv=t)
+                try:
+                    return it.call_source(fi, func, Tableau, [t, 'value'], {}, recv=t)
+                except Outside:
+                    if t.written: return 'WROTE-A-FIELD'        # the guard was passed: a field was assigned with STARTED set
+                    raise
             prs = explore(runp)
             ok = all(pr.kind == 'raise' and issubclass(pr.value.cls, IllegalStateError) for pr in prs) and all(not t.written for t in holder) and len(prs) >= 1
-            ctx.add(enum_ob(f'C17.setter.{nm}.refuses-after-start', ok, where=where, cex=dict(paths=[pr.kind for pr in prs]),
+            ctx.add(enum_ob(f'C17.setter.{nm}.refuses-after-start', ok, where=where, cex=dict(paths=[pr.kind for pr in prs], written=sorted({w_ for t in holder for w_ in t.written})), setter=nm,
                             clause=f'with STARTED set, assigning .{nm} raises IllegalStateError before any write'))
         except Outside as e:
             ctx.add_result(Result(f'C17.setter.{nm}.refuses-after-start', 'unknown', detail=f'outside subset: {e}'))
@@ -247,6 +254,7 @@ def run(ctx):
     init_obligations(ctx)
     locking_obligations(ctx)
     bounded_cutpoints(ctx)
+    ctx.replayers['C17.setter.'] = replay_setter
     ctx.replayers['C17.'] = lambda r: dict(reproduced=None, detail='invariant-based obligation; see solver model')
 
 def _setter_info(name):
@@ -369,3 +377,34 @@ def bounded_cutpoints(ctx):
         if len(samples) < 3: samples.append(dict(logic=L, argument=arg.argstr(), natural_length=n))
     ctx.bounded_part(evaluations=n_eval, distinct_nontrivial=len(distinct), rule='seeded random arguments x every positive step limit 1..n+1 (n = unlimited proof length, capped at 26) plus None/0/-1; distinct = (logic, argument, limit)',
                      bound=f'{n_args} arguments, proofs up to 300 steps', samples=samples or [dict(note='none')], label='cut points')
+
+
+def replay_setter(r):
+    "every way a real tableau becomes STARTED (trunk built from an argument; rule applied on a hand-made branch), then the assignment"
+    from pytableaux.proof import Tableau, swnode
+    from pytableaux.lang import Argument, Atomic, Operator
+    from pytableaux.errors import IllegalStateError
+    nm = r.meta.get('setter') or ('argument' if '.argument.' in r.name else 'logic')
+    a = Atomic(0, 0)
+    def via_trunk():
+        t = Tableau('CPL', Argument(a, (a,))); return t
+    def via_rule():
+        t = Tableau('CPL'); b = t.branch(); b.append(swnode(Operator.Conjunction(a, a))); t.step(); return t
+    def via_rule_manual_trunk():
+        t = Tableau('CPL', auto_build_trunk=False); b = t.branch(); b.append(swnode(~~a)); t.step(); return t
+    out = []
+    for label, mk in (('trunk built from an argument', via_trunk), ('rule applied on a hand-made branch (no argument)', via_rule), ('same, auto_build_trunk=False', via_rule_manual_trunk)):
+        try: t = mk()
+        except Exception as e: out.append(f'{label}: setup raised {type(e).__name__}'); continue
+        if t.flag.STARTED not in t.flag: continue
+        before = (t.argument, t.logic)
+        try:
+            if nm == 'argument': t.argument = Argument(Atomic(1, 0))
+            else: t.logic = 'K3'
+            raised = None
+        except IllegalStateError: raised = 'IllegalStateError'
+        except Exception as e: raised = type(e).__name__
+        after = (t.argument, t.logic)
+        if raised != 'IllegalStateError' or after != before:
+            out.append(f'{label}: assigning .{nm} on a STARTED tableau raised {raised}; (argument, logic) {before} -> {after}')
+    return dict(reproduced=bool(out), detail='; '.join(out) or 'every started tableau refused the assignment and kept its argument and logic')
